@@ -20,6 +20,15 @@ def run(chk):
             jobs.append((56403, 1, r, 'cert'))
         jobs.append((40, 2, 'dp', 'cert'))
         jobs.append((40, 2, 'sd', 'cert'))
+        # every K' up to 3000 on both back-ends (direct solve on one, plan replay on the other), light certificate
+        have = {j[0] for j in jobs}
+        for kp in kps:
+            if kp <= 3000 and kp not in have:
+                jobs.append((kp, 1, 'sd', 'light'))
+                jobs.append((kp, 1, 'dp', 'light'))
+        for i, kp in enumerate(kps):
+            if kp > 3000 and i % 10 == 3:
+                jobs.append((kp, 1, 'sp', 'light'))
     else:
         for kp in kps:
             routes = ROUTES if kp <= 12000 else ['sd', 'sp', 'new']
